@@ -101,14 +101,15 @@ class Func:
 
 
 class Big:
-    """math/big.Int as an unsigned 256-bit value"""
-    __slots__ = ('v',)
+    """math/big.Int: magnitude as an unsigned BIG-bit value, sign as a per-path flag (a symbolic sign forks where it is created)"""
+    __slots__ = ('v', 'neg')
 
-    def __init__(self, v):
+    def __init__(self, v, neg=False):
         self.v = v
+        self.neg = neg
 
     def __repr__(self):
-        return 'Big(%s)' % self.v
+        return 'Big(%s%s)' % ('-' if self.neg else '', self.v)
 
 
 class Opaque:
